@@ -285,6 +285,19 @@ fn quantile_ev<T: StratNum>(case: &Value, out: &mut Vec<Value>) {
     });
     let pvlog = verif_hooks::take_log();
     let mem1 = proj_vals(&mem_of(&parent), bexp);
+    // the same call once more on the (now rearranged) buffer, under fresh random pivots: the answer must not change
+    verif_hooks::set_script(vec![], Fallback::Drawn);
+    let r2 = guarded(|| {
+        let mut v = lay.view_mut(&mut parent);
+        match api {
+            "axis_bulk" => bulk_call(&mut v, axis, &qs, strat).map(|a| a.iter().cloned().collect::<Vec<T>>()),
+            "axis_single" => single_call(&mut v, axis, qs[0], strat).map(|a| a.iter().cloned().collect::<Vec<T>>()),
+            "1d_bulk" => { let mut v1 = v.into_dimensionality::<Ix1>().unwrap(); one_d_bulk(&mut v1, &qs, strat).map(|a| a.to_vec()) }
+            _ => { let mut v1 = v.into_dimensionality::<Ix1>().unwrap(); one_d_single(&mut v1, qs[0], strat).map(|x| vec![x]) }
+        }
+    });
+    verif_hooks::take_log();
+    let (out2, res2) = match &r2 { Ok(Ok(vals)) => ("ok".to_string(), proj_vals(vals, bexp)), Ok(Err(e)) => (err_json(e).as_str().unwrap().to_string(), vec![]), Err(()) => ("panic".to_string(), vec![]) };
     let qi: Vec<Value> = qv.iter().zip(qspecs.iter()).map(|(&q, s)| {
         let mut o = qinfo(q, n);
         o.as_object_mut().unwrap().insert("a".into(), s["a"].clone());
@@ -300,7 +313,7 @@ fn quantile_ev<T: StratNum>(case: &Value, out: &mut Vec<Value>) {
     let mut o = json!({"ev": "quantile", "ty": T::NAME, "strat": strat, "api": api, "axis": axis, "g": g, "lay": lay.to_json(),
         "scale": T::scale(), "wide": wide,
         "lanes": lanes.iter().map(|l| proj_vals(l, bexp)).collect::<Vec<_>>(), "qs": qi,
-        "out": outc, "rshape": rshape, "res": res, "mem0": mem0, "mem1": mem1, "npiv": pvlog.len()});
+        "out": outc, "rshape": rshape, "res": res, "out2": out2, "res2": res2, "mem0": mem0, "mem1": mem1, "npiv": pvlog.len()});
     // C18: the same request item by item on fresh copies
     if case.get("pair").and_then(|x| x.as_bool()).unwrap_or(false) {
         let mut singles: Vec<Value> = Vec::new();
